@@ -34,7 +34,21 @@ Proof. exact entry_decisions. Qed.
 Print Assumptions C04_claim_decision.
 
 (* "Exactly once when eligible" is a liveness statement about completed runs; it is decided on observed runs by
-   the oracle (Corr/BusOracle.v, complete_b) and holds for the model on every replayed schedule. *)
+   the oracle (Corr/BusOracle.v, complete_b; Corr/CorrOnce.v for the schedule the controller cannot force) and holds
+   for the model on every replayed schedule.  As a statement over EVERY schedule it is REFUTED for the faithful model by
+   a two-goroutine interleaving that needs a preemption between two adjacent statements of PublishContext (claim, then
+   the per-handler cancellation check): the context is live when the event is published, the Once handler is claimed,
+   the context is cancelled, the handler is skipped - and it never fires again.  Not reproducible on the real code by
+   the harness (no callback between the two statements); recorded in DESIGN.md. *)
+Theorem C04_sync_claim_then_cancel_refuted :
+  let P := {| p_bodies := [(0, {| b_acts := [] |})]; p_filters := []; p_routes := fun _ => 0; p_nshards := 32; p_pfault := fun _ => PfOk |} in
+  let sp := {| h_fn := 0; h_once := true; h_async := false; h_seq := false; h_ctx := false; h_filter := None; h_body := 0 |} in
+  let th := [[ASub 0 sp; APub 0 1 (CtxId 1) false; ACount 0; APub 0 2 CtxBg false; ACount 0]; [ACancel 1]] in
+  let '(s, ls) := run P cfg0 (init_state th) (repeat 0 7 ++ [1; 1; 1] ++ repeat 0 80) in
+  cnt_entered 0 s = 0 /\
+  filter (fun l => match l with LRes (ACount _) _ => true | _ => false end) ls = [LRes (ACount 0) 0; LRes (ACount 0) 0].
+Proof. exact sync_claim_then_cancel. Qed.
+Print Assumptions C04_sync_claim_then_cancel_refuted.
 
 Example C04_nonvacuous :
   let P := {| p_bodies := [(0, {| b_acts := [] |})]; p_filters := [(0, {| f_acts := []; f_min := 5 |})];
